@@ -30,6 +30,7 @@ K_INH_CREATE_BASEEXC = 'C06:inheritable-create-baseexception-skips-parent-cleanu
 K_INH_CREATE_CLEANUP = 'C06:inheritable-create-cleanup-fails'
 K_LAZY_EXTRA = 'C06:lazy-set-extra-raises-after-columns-cached'
 K_SET_FK_OBJ = 'C06:set-fk-by-object-written-before-failing-update'
+K_SET_PARENT_COL = 'C06:inheritable-set-parent-column-written-before-failing-update'
 
 META = {
     'extractors': [],
@@ -60,7 +61,8 @@ META = {
     'modelled': ['SQLite constraint evaluation order NOT NULL, CHECK, UNIQUE (executed, compared)',
                  'instances unreachable after a failed constructor are dropped from the model state',
                  'signal listeners, cacheValues=False, transactions (autoCommit off) are outside the model',
-                 'an exception raised by the application\'s own property setter inside set() is outside the property (counted, not reported)'],
+                 'an exception raised by the application\'s own property setter inside set() is outside the property (counted, not reported)',
+                 'after every failed call the oracle also checks that each held live instance is still the very object the cache hands out (tryGet is inst, both directions) and re-fetches it with get()'],
     'assumptions': ['sqlite_sequence (AUTOINCREMENT counters) is not application data: ids consumed by a failed create are not compared',
                     'the injected error is single-shot: statements after the k-th are executed normally',
                     'AtomicSyn is sufficient, not necessary: a failed call outside it may still be a no-op (destroySelf failing inside a nested cascade before its first effect; inheritable victims after statement 1); the harness counts these (input_distribution: in the gap, no-op)',
@@ -293,7 +295,9 @@ class Env(object):
         for j, v in kw:
             d[self.v.colnames[c][j]] = self.pyval(v)
         for e in extras:
-            if isinstance(e, (list, tuple)):      # ['f', col, id]: the ForeignKey given by object
+            if isinstance(e, (list, tuple)) and e[0] == 'p':   # ['p', class, col, value]: a column inherited from class
+                d[self.v.colnames[e[1]][e[2]]] = self.pyval(e[3])
+            elif isinstance(e, (list, tuple)):      # ['f', col, id]: the ForeignKey given by object
                 _, col, tid = e
                 cname = self.v.colnames[c][col]
                 target = CLS[self.v.order[c]]['cols'][col][1]['fk'][0]
@@ -397,8 +401,8 @@ class Env(object):
         return canon_dump({'T': sorted(tabs), 'L': sorted(links), 'I': insts, 'R': reg})
 
     def snapshot(self):
-        """per-object view for the oracle (by identity)"""
-        return {id(o): (o, self.inst_state(o)) for o in self.instances()}
+        """per-object view for the oracle (by identity); with: is this very object the one the cache hands out?"""
+        return {id(o): (o, self.inst_state(o), self.conn.cache.tryGet(o.id, type(o)) is o) for o in self.instances()}
 
 
 def canon_val(x):
@@ -467,7 +471,11 @@ def fmt_v(x):
 
 
 def fmt_ex(ex):
-    return ','.join(('f%d=%s' % (e[1], fmt_v(e[2]))) if isinstance(e, (list, tuple)) else e for e in ex) or '-'
+    def one(e):
+        if isinstance(e, (list, tuple)):
+            return 'p%d.%d=%s' % (e[1], e[2], fmt_v(e[3])) if e[0] == 'p' else 'f%d=%s' % (e[1], fmt_v(e[2]))
+        return e
+    return ','.join(one(e) for e in ex) or '-'
 
 
 def fmt_kw(kw):
@@ -550,10 +558,15 @@ def oracle(env, before_dump, before_snap, out):
         probs.append('link rows changed: %s' % diff(before_dump['L'], after['L']))
     if after['R'] != before_dump['R']:
         probs.append('registered instances changed: %s' % diff(before_dump['R'], after['R']))
-    for oid, (o, st) in before_snap.items():
+    for oid, (o, st, was_reg) in before_snap.items():
         now = env.inst_state(o)
         if now != st:
             probs.append('instance %s#%d changed in memory: %s -> %s' % (env.v.order[st[0]], st[1], st[2:], now[2:]))
+        is_reg = env.conn.cache.tryGet(o.id, type(o)) is o
+        if is_reg != was_reg:
+            probs.append('instance %s#%d %s' % (env.v.order[st[0]], st[1],
+                         'is no longer the object registered for its row' if was_reg else 'got registered'))
+    probs.extend(refetch_probe(env))
     rows = {(c, i): vals for c, i, vals in after['T']}
     for o in env.instances():
         c, i, vals, pend, dirty, obs = env.inst_state(o)
@@ -567,6 +580,28 @@ def oracle(env, before_dump, before_snap, out):
             if row is None or row[j] != x:
                 probs.append('instance %s#%d shows %s=%r, the row has %r'
                              % (env.v.order[c], i, env.v.colnames[c][j], x, None if row is None else row[j]))
+    return probs
+
+
+def refetch_probe(env):
+    """after a failed call: fetching the row of a live instance the application holds must hand out that very
+    instance; otherwise a write through the fetched object leaves the held one stale.  (Run last: it may register.)"""
+    probs = []
+    v = env.v
+    parents = {CLS[n].get('parent') for n in v.order}
+    rows = {(c, i) for c, i, _ in env.dump()['T']}
+    for (c, i), o in list(env.held.items()):
+        name = v.order[c]
+        if name in parents or o.sqlmeta._obsolete or (c, i) not in rows:
+            continue
+        try:
+            again = v.classes[c].get(i, connection=env.conn)
+        except Exception as e:
+            probs.append('get(%s, %d) after the failed call raised %s' % (name, i, type(e).__name__))
+            continue
+        if again is not o:
+            probs.append('%s.get(%d) after the failed call returns a second instance of the row the application holds '
+                         '(a write through it leaves the held instance stale)' % (name, i))
     return probs
 
 
@@ -585,6 +620,11 @@ def classify(v, op, t, probs, after):
         cidx = op[1]
     cname = v.order[cidx]
     inh = bool(CLS[cname].get('parent'))
+    # none of the known defects takes the registered instance away from a row that is still there
+    live = {(c, i) for c, i, _ in after['T']}
+    lost = [r for r in before['R'] if r not in after['R'] and tuple(r) in live]
+    if lost:
+        return 'C06:unexpected:%s-raised-%s-and-a-surviving-row-lost-its-registered-instance' % (name, out)
     if name == 'destroy':
         if not any(c == op[1] and i == op[2] for c, i, _ in after['T']):
             return 'C06:unexpected:destroy-raised-%s-but-victim-row-deleted' % out
@@ -621,6 +661,12 @@ def classify(v, op, t, probs, after):
             # an INSERT of the chain failed: the clean-up has to restore everything
             return K_INH_CREATE_BASEEXC if kind == 'i' else 'C06:unexpected:%s:insert-failure-not-cleaned:%s' % (name, where)
         return K_INH_CREATE_CLEANUP                # a statement of the clean-up itself failed
+    if name == 'set' and any(isinstance(e, (list, tuple)) and e[0] == 'p' for e in op[4]):
+        # a column inherited from an ancestor is assigned on the ancestor's instance (own UPDATE) after the
+        # child's own values were validated and before the child's own UPDATE
+        if any(x in ('bad', 'bad2') for _, x in op[3]):
+            return 'C06:unexpected:set:inherited-column-written-although-an-own-value-is-invalid'
+        return K_SET_PARENT_COL
     if name == 'set' and any(isinstance(e, (list, tuple)) for e in op[4]):
         # a ForeignKey given by object is written by its own UPDATE; the values are validated first
         return K_SET_FK_OBJ if out != 'Invalid' else 'C06:unexpected:set:fk-by-object-written-before-validation'
@@ -779,6 +825,15 @@ def directed(vi):
     out.append(('chain3-bad2-leaf', hG, mk_chain(v, 2, 2, 2, 'bad2')))
     out.append(('chain3-destroy', hG + [mk_create(v, 'DP', ref=1)], ['destroy', Gra, 1]))
     out.append(('chain3-destroy-refused', hG + [mk_create(v, 'DC', ref=1)], ['destroy', Gra, 1]))
+    hI2 = [mk_child(v, 1, 1), mk_child(v, 2, 2)]
+    out.append(('child-set-both-levels-ok', hI2, ['set', Chi, 1, [(1, 5)], [['p', Par, 0, 7]]]))
+    out.append(('child-set-own-invalid', hI2, ['set', Chi, 1, [(1, 'bad')], [['p', Par, 0, 7]]]))
+    out.append(('child-set-own-invalid-step2-order', hI2, ['set', Chi, 1, [(0, 5), (1, 'bad')], [['p', Par, 0, 7]]]))
+    out.append(('child-set-own-dup', hI2, ['set', Chi, 1, [(0, 2)], [['p', Par, 0, 7]]]))
+    out.append(('child-set-parent-invalid', hI2, ['set', Chi, 1, [(1, 5)], [['p', Par, 0, 'bad']]]))
+    out.append(('child-set-parent-dup', hI2, ['set', Chi, 1, [(1, 5)], [['p', Par, 0, 2]]]))
+    out.append(('grandchild-set-three-levels', [mk_chain(v, 1, 1, 1), mk_chain(v, 2, 2, 2)],
+                ['set', Gra, 1, [(1, 'bad2')], [['p', Par, 0, 7], ['p', Chi, 1, 5]]]))
     hI = [mk_child(v, 1, 1)]
     out.append(('child-ok', hI, mk_child(v, 2, 2)))
     out.append(('child-dup-child', hI, mk_child(v, 2, 1)))
@@ -914,6 +969,9 @@ def random_case(ctx, vi):
             ex = ex + ['u']
         kw = [] if rng.random() < 0.2 else [(1, rng.choice([None, 1, 2, 7, 'bad', 'bad']))]
         op = ['set', ix['B'], b, kw, ex]
+    elif r < 0.61 and ids['Chi']:
+        own = rng.choice([[(1, rng.choice([None, 5, 100, 'bad']))], [(0, rng.choice([1, 2, 7, 'bad']))], []])
+        op = ['set', ix['Chi'], rng.choice(ids['Chi']), own, [['p', ix['Par'], 0, rng.choice([1, 2, 8, 9, 'bad'])]]]
     elif r < 0.63:
         op = mk_chain(v, val('alt'), val('alt'), val('alt'), rng.choice([_MISSING, _MISSING, 5, 'bad2']))
     elif r < 0.70:
@@ -948,6 +1006,8 @@ def op_rename(op, f):
         op[2] = [[f(c), j, x] for c, j, x in op[2]]
         return op
     op[1] = f(op[1])
+    if name == 'set':
+        op[4] = [[e[0], f(e[1])] + list(e[2:]) if isinstance(e, (list, tuple)) and e[0] == 'p' else e for e in op[4]]
     return op
 
 
